@@ -1,2 +1,86 @@
+"""Thorough-tier guards (DESIGN 3.6):
+ (a) vacuity canaries -- `assert(false)` woven at the entry of every function under contract must FAIL; if it
+     verifies, that function's precondition (or the prelude) is contradictory and every pass would be vacuous;
+ (b) must-fail mutants -- committed one-line mutations of the EXTRACTED text (units/<U>/mutants.json; /repo is not
+     touched) must each make an obligation of the named function fail."""
+import json
+import os
+
+from . import pipeline as pl
+
+VERIF = os.path.dirname(os.path.dirname(os.path.abspath(__file__)))
+
+
+def _canaries(unit):
+    u = pl.Unit(unit, canary=True, tag="-canary")
+    out = {"unit": unit, "functions": 0, "failed_as_expected": 0, "vacuous": []}
+    try:
+        u.build()
+        res = u.run()
+    except pl.Undecided as e:
+        out["error"] = "%s %s" % (e.reason, e.detail[:200])
+        return out
+    cls = u.classify(res)
+    hit = set()
+    lines = u.woven.split("\n")
+    for f in cls["failures"]:
+        wl = f["woven_line"]
+        if f["message"].startswith("assertion failed") and 0 < wl <= len(lines) and "vx-canary" in lines[wl - 1]:
+            hit.add(f["fn"])
+    from .weave import parse_contracts
+    targets = set()
+    for cf in u.spec.get("contracts", ["contracts.vrs"]):
+        for s in parse_contracts(os.path.join(u.dir, cf)):
+            if s.kind == "sig":
+                targets.add(s.target)
+    present = {f[2] for f in u.fn_table}
+    for t in sorted(targets & present):
+        out["functions"] += 1
+        if t in hit:
+            out["failed_as_expected"] += 1
+        else:
+            out["vacuous"].append(t)
+    if cls["status"] == "undecided":
+        out["error"] = cls.get("reason")
+    return out
+
+
+def _mutants(unit):
+    p = os.path.join(VERIF, "units", unit, "mutants.json")
+    out = {"unit": unit, "mutants": 0, "killed": 0, "survived": [], "details": []}
+    if not os.path.exists(p):
+        return out
+    for m in json.load(open(p)):
+        out["mutants"] += 1
+        u = pl.Unit(unit, mutant=m, tag="-mut")
+        try:
+            u.build()
+            res = u.run()
+            cls = u.classify(res)
+        except pl.Undecided as e:
+            out["survived"].append({"id": m["id"], "why": "undecided: %s %s" % (e.reason, e.detail[:160])})
+            continue
+        fns = sorted({f["fn"] for f in cls["failures"]})
+        killed = cls["status"] == "violation" and (not m.get("expect_fn") or m["expect_fn"] in fns)
+        out["details"].append({"id": m["id"], "what": m.get("what", ""), "status": cls["status"], "failing_functions": fns})
+        if killed:
+            out["killed"] += 1
+        else:
+            out["survived"].append({"id": m["id"], "why": "status %s, failing %s" % (cls["status"], fns)})
+    return out
+
+
 def run(prop, units):
-    return {"canaries": [], "mutants": [], "problems": []}
+    rep = {"canaries": [], "mutants": [], "problems": []}
+    for unit in units:
+        c = _canaries(unit)
+        rep["canaries"].append(c)
+        if c.get("vacuous"):
+            rep["problems"].append({"unit": unit, "kind": "vacuous-contract", "detail": "assert(false) verified at the entry of: " + ", ".join(c["vacuous"])})
+        if c.get("error"):
+            rep["problems"].append({"unit": unit, "kind": "canary-run", "detail": str(c["error"])})
+        m = _mutants(unit)
+        rep["mutants"].append(m)
+        if m["survived"]:
+            rep["problems"].append({"unit": unit, "kind": "mutant-survived", "detail": json.dumps(m["survived"])[:400]})
+    return rep
